@@ -2251,6 +2251,31 @@ theorem C11_witness_shared_queue :
     let t := runTwoS false ⟨State.init, State.init⟩ [(false, .create 0), (true, .send 0 0), (false, .step)]
     t.b.log.map (fun h => (h.agent, h.msg.seq)) = [(0, 0)] ∧ t.b.sent = [] := by decide
 
+/-! ## Wave 9 — every dt, not only reciprocals of whole numbers
+
+The per-run tie of the delay conversion: the harness probes, through the real `SimultaneousScheduler.run_step`, how
+many steps a `DelayedEvent(delay)` is kept back for a lattice of (dt, delay) rows that includes dts whose reciprocal
+is not a whole number (0.3, 0.4, 0.6, 0.75, 0.15, 1.5, 2, 2.5), writes the rows into `Gen/C11.lean`, and the kernel
+decides `rows.all StepRow.ok`; `stepRow_ok_iff` says what that means in ℚ. -/
+
+/-- a probed row is accepted exactly when the probed count is ⌈delay/dt⌉ computed in ℚ -/
+theorem stepRow_ok_ceil (r : StepRow) (h : r.ok = true) :
+    (r.probed : ℤ) = ⌈((r.dn : ℚ) / r.dd) / ((r.tn : ℚ) / r.td)⌉ := by
+  simp only [StepRow.ok, Bool.and_eq_true, bne_iff_ne, ne_eq, beq_iff_eq] at h
+  obtain ⟨⟨⟨hdd, htn⟩, htd⟩, hs⟩ := h
+  rw [← hs]
+  exact stepsOf_eq_ceil r.dn r.dd r.tn r.td (Nat.pos_of_ne_zero hdd) (Nat.pos_of_ne_zero htn) (Nat.pos_of_ne_zero htd)
+
+/-- Witness (kernel-checked): counting the delay as `ceil(delay · round(1/dt))` is too short as soon as `1/dt` is not a
+whole number — dt 0.3, delay 1: 3 instead of 4; dt 0.4, delay 1: 2 instead of 3; dt 0.75, delay 2: 2 instead of 3; for
+dt > 1 `round(1/dt)` is 0 or 1 (dt 2, delay 4: 0 instead of 2); for dt = 0.1, 0.25 the two counts agree. -/
+theorem C11_witness_steps_per_round :
+    stepsBySpr 1 1 3 10 = 3 ∧ stepsOf 1 1 3 10 = 4 ∧
+    stepsBySpr 1 1 4 10 = 2 ∧ stepsOf 1 1 4 10 = 3 ∧
+    stepsBySpr 2 1 75 100 = 2 ∧ stepsOf 2 1 75 100 = 3 ∧
+    stepsBySpr 4 1 2 1 = 0 ∧ stepsOf 4 1 2 1 = 2 ∧
+    stepsBySpr 3 10 1 10 = stepsOf 3 10 1 10 ∧ stepsBySpr 7 4 1 4 = stepsOf 7 4 1 4 := by decide
+
 #print axioms C11_full_proved
 #print axioms C11_routing
 #print axioms C11_dropped_only_when_absent
@@ -2294,5 +2319,7 @@ theorem C11_witness_shared_queue :
 #print axioms twoS_isolated
 #print axioms C11_two_models
 #print axioms C11_witness_shared_queue
+#print axioms stepRow_ok_ceil
+#print axioms C11_witness_steps_per_round
 
 end Bptk.C11
